@@ -60,7 +60,14 @@ fn main() {
         "C07" => genpaths::run_c07(&mut o, seed, thorough, replay),
         "C08" => genpaths::run_c08(&mut o, seed, thorough, replay),
         "C09" => genpaths::run_c09(&mut o, seed, thorough, replay),
-        "C04" => cond::run_c04(&mut o, seed, thorough, replay),
+        "C04" => match replay {
+            Some(lines) => {
+                let (paths, own): (Vec<String>, Vec<String>) = lines.into_iter().partition(|l| l.starts_with("C07 ") || l.starts_with("C08 "));
+                if !own.is_empty() { cond::run_c04(&mut o, seed, thorough, Some(own)); }
+                genpaths::replay_paths(&mut o, paths);
+            }
+            None => { cond::run_c04(&mut o, seed, thorough, None); genpaths::run_limits(&mut o, seed, thorough); }
+        },
         _ => { eprintln!("unknown property {prop}"); std::process::exit(2); }
     }
     let n = o.finish();
